@@ -20,6 +20,51 @@ def extn_shaped_record(text):
     return S('__extn') in text or S('__entity') in text
 
 
+def sort_arrs(t):
+    if isinstance(t, str) or not t:
+        return t
+    items = [sort_arrs(x) for x in t]
+    if items[0] == 'arr':
+        return ['arr'] + sorted(items[1:], key=sx.dump)
+    return items
+
+
+def proj_tree(res):
+    """JSON tree results: a set is encoded as an array in slot order (C11 decides that order); compare arrays as multisets"""
+    try:
+        return sx.dump(sort_arrs(sx.canon(sx.parse(res))))
+    except Exception:
+        return res
+
+
+def json_of_value(v, r, alt):
+    """the JSON tree of a value s-expression, as the encoder writes it (alt=False) or in another accepted / nearly accepted spelling"""
+    h = v[0]
+    st = lambda s: ['str', s]
+    if h == 'b': return ['bool', v[1]]
+    if h == 'l': return ['num', v[1]] if not (alt and r.random() < 0.1) else ['numother']
+    if h == 's': return st(v[1])
+    if h == 'e':
+        inner = ['obj', [S('type'), st(v[1])], [S('id'), st(v[2])]]
+        if alt:
+            k = r.randrange(7)
+            if k == 0: return inner                                   # implicit form: a record in a value position
+            if k == 1: return ['obj', [S('__entity'), ['obj', [S('type'), st(v[1])]]]]      # id absent
+            if k == 2: return ['obj', [S('__entity'), ['obj', [S('id'), st(v[2])], [S('type'), ['null']]]]]
+            if k == 3: return ['obj', [S('__entity'), inner], [S('extra'), ['num', '1']]]
+            if k == 4: return ['obj', [S('__entity'), ['obj', [S('type'), ['num', '1']], [S('id'), st(v[2])]]]]
+            if k == 5: return ['obj', [S('__entity'), inner], [S('type'), ['num', '7']]]
+            if k == 6: return ['obj', [S('__entity'), ['obj', [S('type'), st(v[1])], [S('id'), st(v[2])], [S('id'), st(S('second'))]]]]
+        return ['obj', [S('__entity'), inner]]
+    if h == 'set': return ['arr'] + [json_of_value(x, r, alt) for x in v[1:]]
+    if h == 'rec':
+        members = [[kv[0], json_of_value(kv[1], r, alt)] for kv in v[1:]]
+        if alt and members and r.random() < 0.2:
+            members.append([members[0][0], ['null'] if r.random() < 0.5 else ['num', '3']])       # duplicate key: the last one wins
+        return ['obj'] + members
+    return None
+
+
 def run(ctx):
     b = lib.standard_build(ctx)
     if not lib.require_builds(ctx, b):
@@ -61,6 +106,40 @@ def run(ctx):
                 'depth 3; random entity maps with parents/attrs/tags + requests + diagnostics; all spellings of decimal/ip/datetime/duration/entity '
                 '(explicit, {fn,arg}, bare string, implicit entity; schema-guided coercion inside entities, sets, records and tags). '
                 'non-trivial = a composite value or an extension value')
+    # correspondence of the JSON-tree codec model (Impl/ValueJson.v): encoder output trees and decoder verdicts on trees
+    enc_vals = [v for v in vals if not lib.has_4in6(sx.dump(v))][: (2500 if quick else 100000)]
+    enc_cases = [case('j%d' % i, 'jsonenc', v) for i, v in enumerate(enc_vals)]
+    _, _, m1 = lib.differential(ctx, enc_cases, 'jsonenc', project=proj_tree, describe='JSON encoding of a value: Go and the Coq model (Impl/ValueJson.v) disagree')
+    ctx.oblige('correspondence: json.Marshal(value) = ValueJson.encode_value as JSON trees (%d values; arrays compared as multisets)' % len(enc_cases), 'correspondence', not m1)
+    dec_trees = []
+    extn = lambda fn, arg: ['obj', [S('__extn'), ['obj', [S('fn'), ['str', S(fn)]], [S('arg'), ['str', S(arg)]]]]]
+    for fn, strs in (('decimal', gen.DEC_STRS), ('duration', gen.DUR_STRS), ('datetime', gen.DT_STRS), ('ip', [x for x in gen.IP_STRS if 'ffff' not in x.lower()])):
+        for a in strs:
+            try:
+                a.encode('utf-8')
+            except UnicodeEncodeError:
+                continue
+            dec_trees.append(extn(fn, a))
+    dec_trees += [extn('nosuch', '1'), ['obj', [S('__extn'), ['obj', [S('fn'), ['str', S('decimal')]]]]], ['obj', [S('__extn'), ['num', '1']]],
+                  ['obj', [S('__extn'), ['obj', [S('fn'), ['num', '1']], [S('arg'), ['str', S('1.0')]]]]], ['obj', [S('__extn'), ['null']]],
+                  ['obj', [S('__extn'), ['obj', [S('fn'), ['str', S('decimal')]], [S('arg'), ['str', S('1.5')]]]], [S('other'), ['num', '1']]],
+                  ['obj', [S('__extn'), ['obj', [S('fn'), ['str', S('decimal')]], [S('arg'), ['null']]]]], ['obj', [S('__entity'), ['null']]],
+                  ['obj', [S('__entity'), ['arr']]], ['obj', [S('__entity'), ['obj']]], ['null'], ['numother'], ['num', '9223372036854775808'], ['num', '-9223372036854775808'],
+                  ['arr', ['null']], ['obj', [S('a'), ['null']]], ['obj', [S('__extn'), ['obj', [S('fn'), ['str', S('ip')]], [S('arg'), ['str', S('1.2.3.4')]], [S('arg'), ['str', S('::1')]]]]]]
+    for v in vals[:1500 if quick else 60000]:
+        dv = sx.dump(v)
+        if any(tag in dv for tag in ('(dec ', '(ip ', '(dt ', '(dur ')):
+            continue                                  # extension values are covered by the literal tables above
+        t = json_of_value(v, r, False)
+        if t is not None:
+            dec_trees.append(t)
+        t = json_of_value(v, r, True)
+        if t is not None:
+            dec_trees.append(t)
+    dec_cases = [case('d%d' % i, 'jsondec', t) for i, t in enumerate(dec_trees)]
+    _, _, m2 = lib.differential(ctx, dec_cases, 'jsondec', describe='JSON decoding of a tree: Go and the Coq model (Impl/ValueJson.v) disagree')
+    ctx.oblige('correspondence: types.UnmarshalJSON = ValueJson.decode_value on %d JSON trees (encoder outputs, alternative spellings, malformed escapes)' % len(dec_cases),
+               'correspondence', not m2)
     go = lib.run_go(cases, 'json', ctx.workdir)
     bad = 0
     for c in cases:
